@@ -4,7 +4,8 @@ Model of the `collections.deque` based ready-queue helpers of asynkit
 `call_pos`).  A deque is a `List`; head = left end.
 
 Trusted (modelled, not verified): `deque.rotate`, `deque.popleft`, `deque.pop`,
-`deque.append`, `deque.insert` (which clamps like `list.insert`).
+`deque.append`, `deque.remove` (first occurrence, ValueError when absent), `deque.insert` (which
+clamps like `list.insert`).
 No Mathlib imports (this file is part of the executable driver).
 -/
 namespace Asynkit.Deque
@@ -56,41 +57,43 @@ def dequePop (d : List α) (pos : Int) : Option (α × List α) :=
     | some (r, d') => some (r, rotate d' pos2)
   else none
 
-/-- `for i, handle in enumerate(reversed(queue)): if key(handle): ...` — first hit of the
-    reversed scan, with its index `i` counted from the tail. -/
-def revScan (key : α → Bool) : List α → Nat → Option (Nat × α)
-  | [], _ => none
-  | a :: r, i => if key a then some (i, a) else revScan key r (i + 1)
+/-- `deque.remove(x)`: removes the first element equal to `x` (for `Handle`s: identical to it);
+    `none` = ValueError -/
+def remove [BEq α] (q : List α) (x : α) : Option (List α) :=
+  if q.contains x then some (q.erase x) else none
 
-/-- `default.queue_find(queue, key, remove)` -/
-def queueFind (q : List α) (key : α → Bool) (rm : Bool) : Option α × List α :=
-  match revScan key q.reverse 0 with
+/-- `default.queue_find(queue, key, remove)`:
+```
+    for handle in reversed(list(queue)):      # a snapshot, searched from the tail
+        if key(handle):
+            if remove: queue.remove(handle)   # by identity
+            return handle
+    return None
+``` -/
+def queueFind [BEq α] (q : List α) (key : α → Bool) (rm : Bool) : Option α × List α :=
+  match q.reverse.find? key with
   | none => (none, q)
-  | some (i, h) =>
+  | some h =>
     if rm then
-      match dequePop q ((q.length : Int) - (i : Int) - 1) with
-      | some (_, q') => (some h, q')
+      match remove q h with
+      | some q' => (some h, q')
       | none => (some h, q)
     else (some h, q)
 
-/-- `default.queue_remove(queue, handle)`; `none` = ValueError("handle not in queue") -/
-def queueRemove [BEq α] (q : List α) (h : α) : Option (List α) :=
-  match revScan (fun x => x == h) q.reverse 0 with
-  | none => none
-  | some (i, _) =>
-    match dequePop q ((q.length : Int) - (i : Int) - 1) with
-    | some (_, q') => some q'
-    | none => some q
+/-- `default.queue_remove(queue, handle)`: `queue.remove(handle)`;
+    `none` = ValueError("handle not in queue") -/
+def queueRemove [BEq α] (q : List α) (h : α) : Option (List α) := remove q h
 
 /-- `deque.insert(pos, x)`: like `list.insert` (clamped at both ends, negative = from the tail) -/
 def insert (q : List α) (pos : Int) (x : α) : List α :=
   let i : Nat := if pos < 0 then (pos + (q.length : Int)).toNat else min pos.toNat q.length
   q.insertIdx i x
 
-/-- `default.call_pos`: `handle = call_soon(...)` (append), `queue.pop()`, `queue.insert(pos, handle)` -/
-def callPos (q : List α) (pos : Int) (h : α) : List α :=
-  match pop (q ++ [h]) with
-  | none => q
-  | some (h2, q2) => insert q2 pos h2
+/-- `default.call_pos`: `handle = call_soon(...)` (append), `queue.remove(handle)`,
+    `queue.insert(pos, handle)` -/
+def callPos [BEq α] (q : List α) (pos : Int) (h : α) : List α :=
+  match remove (q ++ [h]) h with
+  | none => q ++ [h]
+  | some q2 => insert q2 pos h
 
 end Asynkit.Deque
